@@ -100,6 +100,15 @@ def gen_cases(ctx):
     # have one initial state and see the history without it)
     step = 7 if ctx.tier == "quick" else 3
     cases += ["D ; " + c if c else "D" for c in cases[::step]]
+    # LARGE NAME POPULATIONS: tens of thousands of distinct names in one scope and across scopes (a table keyed by a
+    # hash of the name, a growth step of the map, an id counter of a narrow type would show here and nowhere else);
+    # these histories are checked against the specification only (the association-list model is quadratic)
+    for n, tag in ((70000, "a"), (150000, "b")) if ctx.tier == "quick" else ((70000, "a"), (150000, "b"), (400000, "c")):
+        names = ["".join(rnd.choice("abcdefghijklmnopqrstuvwxyz") for _ in range(rnd.randint(5, 9))) + tag for _ in range(n)]
+        names = list(dict.fromkeys(names))
+        ops = [f"B {x} Int - n" for x in names[: n // 2]] + ["E l"] + [f"B {x} Qubit" for x in names[n // 2:]]
+        ops += [f"L {x}" for x in names[:: 7]] + ["X"] + [f"L {x}" for x in names[n // 2:: 11]] + [f"L {x}" for x in names[: n // 2: 13]]
+        cases.append(" ; ".join(ops))
     return cases, nexh
 
 
@@ -115,13 +124,15 @@ def check(ctx):
     ctx.log(f"{len(cases)} histories ({nexh} bounded-exhaustive)")
     impl = C.run_impl(ctx, "symtab", cases)
     have_model = ctx.lake_ok
-    model = C.run_model(ctx, "symtab", [strip_ctor(c) for c in cases]) if have_model else [None] * len(cases)
+    model = C.run_model(ctx, "symtab", [strip_ctor(c) if len(c) < 200000 else "" for c in cases]) if have_model else [None] * len(cases)
     ctx.log("spec oracle")
     chunks = [cases[i:i + 20000] for i in range(0, len(cases), 20000)]
     with ProcessPoolExecutor(max_workers=C.NPROC) as ex:
         spec = [x for part in ex.map(_spec_chunk, chunks) for x in part]
     failures, ndis, nontriv = [], 0, 0
     for i, c in enumerate(cases):
+        if len(c) >= 200000:
+            model[i] = impl[i]                     # population histories: specification only
         if have_model and impl[i] != model[i]:
             ndis += 1
             if len(ctx.corr_disagreements) < 20:
